@@ -77,17 +77,23 @@ package services
 //@   ensures error_leaves_state: [C16 C09] err != nil ==> state_unchanged()
 
 //@ func (*subscriberServer).ModifyAckDeadline(s, ctx, req) (resp, err)
-//@   property C16
+//@   property C16 C04
 //@   uses tables notifyspec
 //@   nopanic
 //@   requires s != nil && s.client != nil && req != nil && tables_wf()
+//@   ensures deadline_moved: [C04] err == nil ==> exists now clock :: (forall d Id :: {deliveries.attempt_at(d)} old(open(d)) && (exists i int :: {req.AckIds[i]} 0 <= i && i < len(req.AckIds) && uuidparse(req.AckIds[i]) == d) ==>
+//@             (req.AckDeadlineSeconds > 0 ==> deliveries.attempt_at(d) >= old(deliveries.attempt_at(d)) && deliveries.attempt_at(d) >= now + req.AckDeadlineSeconds * 1000000000) &&
+//@             (req.AckDeadlineSeconds <= 0 ==> deliveries.attempt_at(d) <= now))
+//@   ensures only_listed: [C04] forall d Id :: {deliveries.attempt_at(d)} !(exists i int :: {req.AckIds[i]} 0 <= i && i < len(req.AckIds) && uuidparse(req.AckIds[i]) == d) ==> deliveries.attempt_at(d) == old(deliveries.attempt_at(d))
 //@   ensures error_leaves_state: [C16 C09] err != nil ==> state_unchanged()
 
 //@ func (*subscriberServer).Acknowledge(s, ctx, req) (resp, err)
-//@   property C16
+//@   property C16 C03
 //@   uses tables notifyspec
 //@   nopanic
 //@   requires s != nil && s.client != nil && req != nil && tables_wf()
+//@   ensures acked: [C03] err == nil ==> (forall d Id :: {deliveries.completed_at$null(d)} old(open(d)) && (exists i int :: {req.AckIds[i]} 0 <= i && i < len(req.AckIds) && uuidparse(req.AckIds[i]) == d) ==> deliveries.exists(d) && !deliveries.completed_at$null(d))
+//@   ensures only_listed: [C03] forall d Id :: {deliveries.completed_at$null(d)} !(exists i int :: {req.AckIds[i]} 0 <= i && i < len(req.AckIds) && uuidparse(req.AckIds[i]) == d) ==> deliveries.completed_at$null(d) == old(deliveries.completed_at$null(d))
 //@   ensures error_leaves_state: [C16 C09] err != nil ==> state_unchanged()
 
 //@ func (*subscriberServer).Pull(s, ctx, req) (resp, err)
